@@ -7,10 +7,13 @@ import (
 	"io"
 	"math"
 	"math/big"
+	"net/netip"
+	"time"
 
 	"github.com/atombender/go-jsonschema/pkg/codegen"
 	"github.com/atombender/go-jsonschema/pkg/generator"
 	"github.com/atombender/go-jsonschema/pkg/mathutils"
+	"github.com/atombender/go-jsonschema/pkg/types"
 )
 
 // numbers travel as exact rationals "p/q" (or "p"); every value used by the families is
@@ -205,6 +208,30 @@ func runDirect(dec *json.Decoder, enc *json.Encoder) {
 
 			case "identifierize":
 				res["out"] = generator.VerifIdentifierize(c.Caps, c.Exts, c.S)
+
+			case "fmtok":
+				q, _ := json.Marshal(c.S)
+
+				var err error
+
+				switch c.Type {
+				case "date-time":
+					var v time.Time
+					err = json.Unmarshal(q, &v)
+				case "date":
+					var v types.SerializableDate
+					err = json.Unmarshal(q, &v)
+				case "time":
+					var v types.SerializableTime
+					err = json.Unmarshal(q, &v)
+				case "ipv4", "ipv6":
+					var v netip.Addr
+					err = json.Unmarshal(q, &v)
+				default:
+					err = fmt.Errorf("unknown format")
+				}
+
+				res["ok"] = err == nil
 
 			case "isident":
 				res["ident"] = token.IsIdentifier(c.S)
